@@ -1,0 +1,28 @@
+//! Verification hook (only with `--cfg datacake_verif`): lets a harness wait for the
+//! background thread of a database to finish after every handle was dropped, so that the
+//! environment can then be closed (heed's `prepare_for_closing`) and reopened within one
+//! process without racing with LMDB's thread-exit destructor of that thread.
+
+use std::collections::HashMap;
+use std::path::{Path, PathBuf};
+use std::sync::Mutex;
+use std::thread::JoinHandle;
+
+static WORKERS: Mutex<Option<HashMap<PathBuf, JoinHandle<()>>>> = Mutex::new(None);
+
+pub(crate) fn register_worker(path: PathBuf, worker: JoinHandle<()>) {
+    WORKERS
+        .lock()
+        .unwrap()
+        .get_or_insert_with(HashMap::new)
+        .insert(path, worker);
+}
+
+/// Waits until the background thread of the database at `path` (as reported by
+/// `Env::path`) has exited. Every `StorageHandle` of it must have been dropped before.
+pub fn join_worker(path: &Path) {
+    let worker = WORKERS.lock().unwrap().as_mut().and_then(|m| m.remove(path));
+    if let Some(worker) = worker {
+        let _ = worker.join();
+    }
+}
